@@ -85,6 +85,9 @@ var AnyTS = func() *schema.TypeSystem {
 	ts.Accumulate(schema.SpawnLink("Link"))
 	ts.Accumulate(schema.SpawnMap("MapAny", "String", "Any", true)) // nullable: bindnode admits null in Any only where nullable
 	ts.Accumulate(schema.SpawnList("ListAny", "Any", true))
+	// the same containers with NON-nullable Any values (for behaviours that hold no null): another Go shape for the values
+	ts.Accumulate(schema.SpawnMap("MapAnyNN", "String", "Any", false))
+	ts.Accumulate(schema.SpawnList("ListAnyNN", "Any", false))
 	return ts
 }()
 
